@@ -13,6 +13,7 @@ import (
 	"strconv"
 	"strings"
 	"sync"
+	"sync/atomic"
 	"time"
 
 	"verif/sim/core"
@@ -487,7 +488,10 @@ func (e *Exchange) pumpErrLive() bool { return e.PumpErrLive }
 // leaves that to the request goroutine, which cannot while it is blocked
 // reading the request body.
 func (e *Exchange) updateDeaf() {
-	e.Call.Ctx.SetDeaf(e.Call.K.HTTP2 && e.RespReturned && e.pumpInRead)
+	// (HTTP/1.1 before the response: RoundTrip does notice the context, but it
+	// returns only once the write loop has ended - mapRoundTripError waits for
+	// it - and the write loop is blocked reading the request body.)
+	e.Call.Ctx.SetDeaf(e.pumpInRead && (e.Call.K.HTTP2 && e.RespReturned || !e.Call.K.HTTP2 && !e.RespReturned))
 }
 
 func (e *Exchange) runPump() {
@@ -800,11 +804,11 @@ func (b *reqBody) Close() error {
 type respBody struct {
 	e      *Exchange
 	resp   *http.Response
-	closed bool
+	closed atomic.Bool // net/http's bodies may be closed while another goroutine reads
 }
 
 func (b *respBody) Read(p []byte) (int, error) {
-	if b.closed {
+	if b.closed.Load() {
 		return 0, errors.New("http: read on closed response body")
 	}
 	ctx := b.e.clientReq.Context()
@@ -829,10 +833,9 @@ func (b *respBody) Read(p []byte) (int, error) {
 
 func (b *respBody) Close() error {
 	b.e.Call.incClose()
-	if b.closed {
+	if b.closed.Swap(true) {
 		return nil
 	}
-	b.closed = true
 	e := b.e
 	e.mu.Lock()
 	defer e.mu.Unlock()
